@@ -4,6 +4,9 @@
               ensure <fixed 0|1> <top> <n> <len>  -> ENOUGH <len'> | OOS
               deep <k> <top> <per> <n> <len>      -> deep_outcome: ENOUGH <final len> | OOS   (k pending calls)
               grow <size> <min_size>              -> grow_stack (repaired): SOME <len> | NONE
+              depths <ast>   -> per code body of compile_toplevel (order of calls): the room the body needs above its frame
+                                header = max depth of its checked certificate (C05/Depth.v body_depth), X = no certificate
+              rdepths <code> -> the same for a code given in the printed form (the real bytecode through wire_code)
               session <fixed 0|1> <c0> <per> <n> <top> <len> <k>..  -> session_z: per call "ok top len", separated by " ; "
    (original header of the C03 driver follows)
    Requests (one per line, ASTs are s-expressions in the format of harness/embed_c03.c with
@@ -121,7 +124,40 @@ let one fields = match asts_of_fields fields with [a] -> a | _ -> failwith "expe
 
 let pr_calls l = "(" ^ String.concat " " (List.map (fun (t, n) -> "(" ^ (if t then "1" else "0") ^ " " ^ si n ^ ")") l) ^ ")"
 
+(* the printed code form (pr_code above; props/C03.py wire_code produces it from the real bytecode dump) back into
+   model code.  Only what the depth certificate looks at matters: literals are kept when they parse, CDR / CONS are read
+   as the VM instructions of the same stack effect as the primitives. *)
+let rec code_of_sx = function
+  | L (A "code" :: ins) -> List.map instr_of_sx ins
+  | _ -> failwith "code"
+and instr_of_sx = function
+  | L [A "PUSH"; L [A "proc"; A f; A n; c]] -> IPushProc (nat_of_string f, nat_of_string n, code_of_sx c)
+  | L [A "PUSH"; L [A "cell"; A g]] -> IPushCell (nat_of_string g)
+  | L [A "PUSH"; l] -> IPush (try lit_of l with Failure _ -> LOpaque (nat_of_int 0))
+  | L [A "MAKE-PROCEDURE"; A f; A n; c] -> IMakeProc (nat_of_string f, nat_of_string n, code_of_sx c)
+  | L [A "LOCAL-REF"; A k] -> ILocalRef (z_of_int (int_of_string k))
+  | L [A "LOCAL-SET"; A k] -> ILocalSet (z_of_int (int_of_string k))
+  | L [A "CLOSURE-REF"; A k] -> IClosureRef (nat_of_string k)
+  | L [A "GLOBAL-REF"; A g] -> IGlobalRef (nat_of_string g)
+  | L [A "CDR"] -> ICdr | L [A "SET-CDR"] -> ISetCdr | L [A "CONS"] -> ICons | L [A "MAKE-VECTOR"] -> IMakeVector
+  | L [A "STACK-REF"; A k] -> IStackRef (nat_of_string k)
+  | L [A "VECTOR-SET"] -> IVectorSet | L [A "DROP"] -> IDrop
+  | L [A "JUMP-UNLESS"; A n] -> IJumpUnless (nat_of_string n) | L [A "JUMP"; A n] -> IJump (nat_of_string n)
+  | L [A "CALL"; A n] -> ICall (nat_of_string n) | L [A "TAIL-CALL"; A n] -> ITailCall (nat_of_string n)
+  | L [A "RET"] -> IRet | L [A "DONE"] -> IDone
+  | L [A "ADD"] -> IPrim PAdd | L [A "SUB"] -> IPrim PSub | L [A "MUL"] -> IPrim PMul | L [A "LT"] -> IPrim PLt
+  | L [A "LE"] -> IPrim PLe | L [A "EQN"] -> IPrim PEqn | L [A "EQ"] -> IPrim PEq | L [A "CAR"] -> IPrim PCar
+  | L [A "NULL?"] -> IPrim PNullp | L [A "PAIR?"] -> IPrim PPairp | L [A "NOT"] -> IPrim PNot
+  | _ -> failwith "unsupported instruction"
+
+let pr_depths l = String.concat " " (List.map (function Some n -> si n | None -> "X") l)
+
 let handle = function
+  | "depths" :: rest -> pr_depths (bodies_depth (nat_of_int 60) (compile_toplevel (one rest)))
+  | "rdepths" :: rest ->
+      (match parse_all (tokenize (String.concat " " rest)) with
+       | [c] -> pr_depths (bodies_depth (nat_of_int 60) (code_of_sx c))
+       | _ -> failwith "expected one code")
   | "calls" :: rest -> String.concat " " (List.map pr_calls (bodies_calls (nat_of_int 60) (compile_toplevel (one rest))))
   | "tail" :: rest -> pr_calls (tail_sites true (annotate (one rest)))
   | ["ensure"; fixed; top; n; len] ->
